@@ -1,4 +1,5 @@
 import random
+from decimal import Decimal
 from typing import Any, Optional, cast
 
 from flamapy.core.models import VariabilityModel
@@ -83,15 +84,20 @@ def get_random_value_from_domain(domain: Domain) -> Any:
     return random_value
 
 
+def get_decimal_digits(value: Any) -> int:
+    """Number of decimal digits of a number, also when it prints in exponent notation."""
+    exponent = Decimal(str(value)).as_tuple().exponent
+    return max(-exponent, 0) if isinstance(exponent, int) else 0
+
+
 def get_random_value_from_ranges(ranges: list[Range]) -> Any:
     """Generate a random value from a list of ranges.
     NOTE: This is not uniform if there are more than one range.
     """
     random_range = random.choice(ranges)
     if isinstance(random_range.min_value, float) or isinstance(random_range.max_value, float):
-        min_digits = str(random_range.min_value)[::-1].find('.')
-        max_digits = str(random_range.max_value)[::-1].find('.')
-        digits = max(min_digits, max_digits)
+        digits = max(get_decimal_digits(random_range.min_value),
+                     get_decimal_digits(random_range.max_value))
         value = round(random.uniform(random_range.min_value, random_range.max_value), digits)
     elif isinstance(random_range.min_value, int) and isinstance(random_range.max_value, int):
         value = random.randint(random_range.min_value, random_range.max_value)
